@@ -50,9 +50,16 @@ class C07(Check):
                 # the same under an interface-aware semantics: predicates become +-inf / 0, the sign must stay sound (C07_ia)
                 c['ia'] = {'sem': rng.choice(['output-robustness', 'input-robustness', 'output-vacuity', 'input-vacuity']), 'io': [rng.randint(0, 1) for _ in range(nv)]}
             cases.append(c)
+        # the robustness of a predicate is a ROUNDED difference: a sample far from the threshold (beyond 2^53 ulps of it) gets a robustness
+        # that is larger than the exact margin, and a perturbation below it (in exact arithmetic) flips the verdict (FloatLip.float_sub_l_refuted,
+        # Props/FloatInstance.C07_robust_float_refuted); deterministic cases, judged with exact rationals
+        for (cmp_, thr, x, x2) in [('geq', -1, 2.0 ** 53 + 2, -1.5), ('leq', 1, -(2.0 ** 53 + 2), 1.5), ('geq', -3, 2.0 ** 54 + 4, -3.5), ('geq', 1, 3.0, 2.5), ('leq', 1, 5.0, 1.5)]:
+            cases.append({'f': ('pred', cmp_, ('var', 0), ('const', thr)), 'n': 1, 'nv': 1, 'cols': [[x]], 'pert': [[x2]], 'times': [0], 'simple': True, 'round': 1})
         return cases
 
     def model_lines(self, c):
+        if c.get('round'):
+            return []
         return ['(sat %s %d %s)' % (fml.to_sx(c['f']), c['n'], fml.trace_sx(c['cols']))]
 
     def impl_cases(self, c):
@@ -71,6 +78,20 @@ class C07(Check):
         return out
 
     def judge(self, c, mlines, ires):
+        if c.get('round'):
+            from fractions import Fraction
+            a, b = ires[0], ires[1]
+            for i in (a, b):
+                if i['setup']['status'] != 'ok' or i['calls'][0]['status'] != 'ok':
+                    return 'violation', {'expected': 'evaluates', 'observed': i['setup'] if i['setup']['status'] != 'ok' else i['calls'][0]}
+            rho, rho2 = float(a['calls'][0]['value'][0][1]), float(b['calls'][0]['value'][0][1])
+            x, x2 = c['cols'][0][0], c['pert'][0][0]
+            dist = abs(Fraction(x) - Fraction(x2))
+            if dist < abs(Fraction(rho)) and (rho > 0) != (rho2 > 0):
+                return 'violation', {'shape': 'rounded_robustness', 'spec': 'out = ' + fml.to_text(c['f']), 'sample': x, 'perturbed_sample': x2,
+                                     'expected': 'a sample at exact distance %s < |rho| = %s from the original keeps the verdict' % (dist, Fraction(rho)),
+                                     'observed': {'rho': rho, 'rho_of_the_perturbed_trace': rho2, 'exact_margin': str(abs(Fraction(x) - Fraction(c['f'][3][1])))}}
+            return 'ok', None
         m = parse_fields(mlines[0])
         if 'ERROR' in m:
             return 'model-error', mlines
@@ -117,9 +138,16 @@ class C07(Check):
                     return 'violation', dict(det, expected='same verdict for perturbations below |rho|', observed={'t': t, 'rho': off[t], 'perturbed': pert[t]})
         rho = json.loads(json.dumps(expect_vals([fml.parse_val(x) for x in m['RHO']])))
         if rho != off:
-            return 'violation', dict(det, expected={'rho': rho}, observed=off, note='implementation differs from rho')
+            # (that evaluate() returns rho is C01's subject; for C07 it is the tie of the model on which C07_offline is stated)
+            return 'model-differs', dict(det, expected={'rho': rho}, observed=off, note='implementation differs from rho')
         c['_nz'] = nz
         return 'ok', None
+
+    def signature(self, c, detail):
+        sig = Check.signature(self, c, detail)
+        if isinstance(detail, dict) and detail.get('shape'):
+            sig['shape'] = detail['shape']
+        return sig
 
     def nontrivial(self, c):
         return fml.size(c['f']) >= 3 and c.get('_nz', 0) > 0
